@@ -102,3 +102,33 @@ def discharge(obligations, tier='quick', procs=None):
     else:
       r['verdict'] = 'unknown'
   return results
+
+
+def relaxed_check(ob, timeout_s=20):
+  """Second opinion on a VC both solvers left open: drop the *quantified* hypotheses.
+  unsat  => the obligation is proved (fewer hypotheses sufficed);
+  sat    => the path is feasible and the clause false as far as the ground facts go -- a candidate
+            refutation whose model may violate a dropped (quantified) fact;
+  unknown otherwise."""
+  import z3
+  from .core import has_quantifier
+  s = z3.Solver()
+  s.set('timeout', int(timeout_s * 1000))
+  kept = 0
+  for a in ob.pc:
+    if not has_quantifier(a):
+      s.add(a)
+      kept += 1
+  s.add(z3.Not(ob.goal))
+  r = s.check()
+  info = {'kept_hypotheses': kept, 'dropped_hypotheses': len(ob.pc) - kept}
+  if r == z3.sat:
+    m = s.model()
+    d = {}
+    for decl in m.decls()[:150]:
+      try:
+        d[decl.name()] = str(m[decl])[:200]
+      except Exception:
+        pass
+    info['model'] = d
+  return str(r), info
